@@ -9,7 +9,7 @@ MOD=dict(C01='m_alloc.go',C02='m_alloc.go',C03='m_layout.go',C04='m_queue.go',C0
 HOLD=set(['C07','C09','C10','C18','C19','C20'])  # builders still working
 def chk(pid,cat,text,note,tech,ref):
     C[pid]=dict(property_id=pid,quick_cmd='./run.sh %s quick'%pid,thorough_cmd='./run.sh %s thorough'%pid,
-        evidence_file='evidence/%s.json'%pid,engine='go-harness',
+        evidence_file='evidence/%s.json'%pid,engine='go-harness',replay_cmd_template='./run.sh %s replay {path}'%pid,
         level_claimed=dict(category=cat,text=text,design_ref=ref),level_note=note,technique=tech)
 chk('C01','exploration',
  'Real pop/push/alloc/recycle operations run under four concurrency regimes, three memory back-ends (heap, mmap, memfd shared by 2-3 processes) and ten perturbation profiles; an ownership table, geometry and payload/header signature checks decide "never two owners / nobody else writes". Held on the executions observed (counts in the evidence); the ABA defect F1 is a known finding attributed by a sound detector.',
